@@ -47,6 +47,9 @@ func (w *World) VerifyFunc(key string) (res *FuncResult) {
 			panic(r)
 		}
 	}()
+	if ct.Pure {
+		x.checkPure()
+	}
 	x.run()
 	res.Calls = dedup(x.calls)
 	res.NoTerm = x.noTerm
@@ -287,6 +290,18 @@ func (x *Exec) run() {
 				"ghost variable "+strings.TrimPrefix(gp, "ghost:")+" is unchanged (it is not mentioned in the postconditions)")
 		}
 	}
+	if ct.KeepsGhosts {
+		// flags keepsghosts: no ghost variable differs from its entry value
+		for _, gp := range sortedKeys(fin.vars) {
+			if !strings.HasPrefix(gp, "ghost:") || sameValue(fin.vars[gp], pre.vars[gp]) {
+				continue
+			}
+			pv, _ := pre.vars[gp].(Scalar)
+			fv, _ := fin.vars[gp].(Scalar)
+			c.oblige("frame", "keepsghost."+strings.TrimPrefix(gp, "ghost:"), x.props, x.pos(fd.Pos()), fin.pc, eq(fv.T, pv.T),
+				"ghost variable "+strings.TrimPrefix(gp, "ghost:")+" is unchanged (flags keepsghosts)")
+		}
+	}
 	// postconditions: checked on every return path separately (smaller contexts than on the merged state)
 	var rp []string
 	var rt []types.Type
@@ -412,4 +427,53 @@ func (x *Exec) checkFrameArrCond(st *State, hk, arr, lo, hi, cond string, p toke
 		x.fc.oblige("frame", fmt.Sprintf("loop-array.%d", i), x.props, x.pos(p), st.pc, goal, "array written inside the loop is one written at loop entry or fresh ("+hk+")")
 		x.fc.assume(st.pc, goal)
 	}
+}
+
+// checkPure is the syntactic side condition of "flags pure": the body reads nothing but its own parameters and
+// locals (no package-level variables, no pointers, slices, maps or channels among the parameters) and calls
+// only builtins, math/bits and other pure functions, so its result is a function of its scalar arguments.
+func (x *Exec) checkPure() {
+	sig := x.pkg.TypesInfo.Defs[x.fd.Name].(*types.Func).Type().(*types.Signature)
+	if sig.Recv() != nil {
+		x.abort("flags pure: methods are not supported")
+	}
+	for i := 0; i < sig.Params().Len(); i++ {
+		if _, ok := sig.Params().At(i).Type().Underlying().(*types.Basic); !ok {
+			x.abort("flags pure: parameter %s is not of a basic type", sig.Params().At(i).Name())
+		}
+	}
+	ast.Inspect(x.fd.Body, func(n ast.Node) bool {
+		switch n := n.(type) {
+		case *ast.Ident:
+			if v, ok := x.pkg.TypesInfo.Uses[n].(*types.Var); ok && v.Parent() == v.Pkg().Scope() {
+				x.abort("flags pure: the body reads the package-level variable %s", n.Name)
+			}
+		case *ast.CallExpr:
+			if tv, ok := x.pkg.TypesInfo.Types[n.Fun]; ok && tv.IsType() {
+				return true
+			}
+			var fn types.Object
+			switch f := ast.Unparen(n.Fun).(type) {
+			case *ast.Ident:
+				fn = x.pkg.TypesInfo.Uses[f]
+			case *ast.SelectorExpr:
+				fn = x.pkg.TypesInfo.Uses[f.Sel]
+			}
+			switch fn := fn.(type) {
+			case *types.Builtin:
+			case *types.Func:
+				if fn.Pkg() != nil && fn.Pkg().Path() == "math/bits" {
+					break
+				}
+				if c := x.w.Contracts[funcKey(fn)]; c == nil || !c.Pure {
+					x.abort("flags pure: the body calls %s, which is not pure", fn.FullName())
+				}
+			default:
+				x.abort("flags pure: unsupported call %s", x.nodeText(n))
+			}
+		case *ast.GoStmt, *ast.SendStmt, *ast.FuncLit:
+			x.abort("flags pure: unsupported statement")
+		}
+		return true
+	})
 }
